@@ -25,14 +25,18 @@ open Ty JsonVal
 /-- the laws of the oracles that the well-formedness clause needs.  `norm` = `cty.NormalizeString`
 (NFC): idempotent, and the two words the decoder writes itself are ASCII.  `hkey` =
 `Value.Hash`: members the set rules call `Equivalent` have one hash (cty/set/rules.go asks this of
-every `Rules`), and `Equivalent` is symmetric — both only on decoder-built members (`Dec`). -/
+every `Rules`), and `Equivalent` is symmetric — both only on decoder-built members (`Dec`) that the
+hash oracle answers for (the model builds a non-empty set only from such members).  Symmetry of
+`Equals` is a theorem for set-free element types (C03, `Lemmas/ValEqSymm.lean`); for sets of sets it
+is assumed here. -/
 structure Laws (env : JEnv) : Prop where
   norm_idem : ∀ s, env.norm (env.norm s) = env.norm s
   norm_true : env.norm "true" = "true"
   norm_false : env.norm "false" = "false"
   hash_coherent : ∀ e x y i j a b, Dec e x → Dec e y → env.hkey e x = some (i, a) → env.hkey e y = some (j, b) →
     equivP e x y = true → i = j
-  equiv_symm : ∀ e x y, Dec e x → Dec e y → equivP e x y = true → equivP e y x = true
+  equiv_symm : ∀ e x y i j a b, Dec e x → Dec e y → env.hkey e x = some (i, a) → env.hkey e y = some (j, b) →
+    equivP e x y = true → equivP e y x = true
 
 abbrev nfcE (env : JEnv) : String → Bool := nfcOf env.norm
 
